@@ -351,3 +351,207 @@ Print Assumptions C19_write_trust_iter_no_partial_state.
 Print Assumptions C19_apply_mut_with.
 Print Assumptions C19_get_mut.
 Print Assumptions C19_sort_unstable_by.
+
+(* ==== audit extension (Proofs/Audit19.v): announcements that are WRONG in either direction, `empty`,
+   every Number dictionary (binary64 included).  notes/C19.md has the clause-by-clause matrix. ======== *)
+From Coq Require Import Floats.
+From Tevec Require Import Proofs.Audit19.
+From Tevec Require Run.RunC19.
+
+(* (14) plain collection ignores the size hint altogether: item-dropping sources (filter, take_while:
+        upper bound too large), under-reporting sources — the items, in order, for every hint *)
+Theorem C19_collect_plain_any_hint :
+  forall (A : Type) (hint : nat) (items : list A), collect_from_iter (TI hint items) = Done items.
+Proof. exact (@collect_from_iter_any_hint). Qed.
+
+Theorem C19_empty : forall A : Type, @empty A = Done [].
+Proof. exact (@empty_spec). Qed.
+
+(* optional -> null-encoded as one equation (length 0 included; the source's hint is never read) *)
+Theorem C19_collect_opt_closed_form :
+  forall (A : Type) (none : A) (items : list (option A)),
+    collect_from_opt_iter none items = Done (map (fun o => match o with Some v => v | None => none end) items).
+Proof. exact (@collect_from_opt_iter_map). Qed.
+
+(* (15) trusted collection against ANY announcement: the default body ignores it; the raw body is the
+        identity iff the announcement is exact, exposes hint - n unwritten slots when it is too long and
+        writes past the allocation (model: Panicked OtherPanic; undefined behaviour) when too short *)
+Theorem C19_collect_trusted_any_announcement :
+  forall (A : Type) (hint : nat) (items : list A),
+    collect_from_trusted BDefault (TI hint items) = Done items /\
+    (hint = length items -> collect_from_trusted BRaw (TI hint items) = Done items) /\
+    ((length items < hint)%nat ->
+       collect_from_trusted BRaw (TI hint items)
+       = Uninit (map Some items ++ repeat None (hint - length items))) /\
+    ((hint < length items)%nat -> collect_from_trusted BRaw (TI hint items) = Panicked OtherPanic).
+Proof. intros A hint items. split; [reflexivity|apply collect_trusted_trichotomy]. Qed.
+
+Theorem C19_collect_trusted_done_iff :
+  forall (A : Type) (b : backend) (hint : nat) (items : list A),
+    collect_from_trusted b (TI hint items) = Done items <-> (b = BDefault \/ hint = length items).
+Proof. exact (@collect_trusted_done_iff). Qed.
+
+Theorem C19_collect_with_len_any_announcement :
+  forall (A : Type) (b : backend) (items : list A) (len : nat),
+    collect_with_len b items len
+    = match b with
+      | BDefault => Done items
+      | BRaw => if (len <? length items)%nat then Panicked OtherPanic
+                else if (length items <? len)%nat
+                     then Uninit (map Some items ++ repeat None (len - length items))
+                     else Done items
+      end.
+Proof. exact (@collect_with_len_any). Qed.
+
+(* (16) fallible trusted collection against ANY announcement, raw body: with no error among the items
+        the three cases of (15); with a first error e after the Ok items xs: Err e for every announcement
+        that is not shorter than xs (too long included: nothing is exposed, the vector is abandoned) —
+        a shorter one overran the allocation before the error was reached *)
+Theorem C19_try_collect_trusted_any_announcement :
+  forall (A E : Type) (hint : nat) (xs : list A) (e : E) (rest : list (A + E)),
+    try_collect_from_trusted BDefault (TI hint (map (@inl A E) xs)) = TOk (Done xs) /\
+    try_collect_from_trusted BDefault (TI hint (map (@inl A E) xs ++ inr e :: rest)) = TErr e /\
+    try_collect_from_trusted BRaw (TI hint (map (@inl A E) xs))
+    = (if (hint <? length xs)%nat then TOk (Panicked OtherPanic)
+       else if (length xs <? hint)%nat then TOk (Uninit (map Some xs ++ repeat None (hint - length xs)))
+            else TOk (Done xs)) /\
+    try_collect_from_trusted BRaw (TI hint (map (@inl A E) xs ++ inr e :: rest))
+    = (if (hint <? length xs)%nat then TOk (Panicked OtherPanic) else TErr e).
+Proof.
+  intros A E hint xs e rest. split; [apply try_collect_ok|]. split; [apply try_collect_err|].
+  split; [apply try_collect_trusted_raw_all_ok|apply try_collect_trusted_raw_err].
+Qed.
+
+(* the source is pulled up to and including the first error, and no further *)
+Theorem C19_try_collect_pulls_stop_at_first_error :
+  forall (A E : Type) (xs : list A) (e : E) (rest : list (A + E)),
+    pulled (map (@inl A E) xs) = length xs /\
+    pulled (map (@inl A E) xs ++ inr e :: rest) = S (length xs).
+Proof. exact (@pulled_shape). Qed.
+
+(* (17) write_trust_iter against ANY announcement and ANY previous buffer content:
+        empty buffer: Ok, nothing read or written;  announced = buffer length <= actual: Ok, the first
+        len items at slots 0..len-1 (surplus items are not pulled);  announced = buffer length > actual:
+        the `unwrap` panics after the available items were written to a prefix — a panic, not an Err;
+        announced = 1 <> buffer length: broadcast of the first item (panic when there is none);
+        otherwise Err with the buffer untouched *)
+Theorem C19_write_trust_iter_any_announcement :
+  forall (A : Type) (old : list (option A)) (hint : nat) (items : list A),
+    let len := length old in
+    let r := write_trust_iter len (TI hint items) in
+    (len = 0%nat -> r = (WOk, [])) /\
+    (len <> 0%nat -> len = hint -> (len <= length items)%nat ->
+       r = (WOk, combine (seq 0 len) (firstn len items))
+       /\ apply_writes (snd r) old = map Some (firstn len items)) /\
+    (len <> 0%nat -> len = hint -> (length items < len)%nat ->
+       r = (WPanic UnwrapNone, combine (seq 0 (length items)) items)
+       /\ apply_writes (snd r) old = map Some items ++ skipn (length items) old) /\
+    (len <> 0%nat -> len <> hint -> hint = 1%nat ->
+       match items with
+       | [] => r = (WPanic UnwrapNone, [])
+       | v :: _ => r = (WOk, map (fun i => (i, v)) (seq 0 len))
+                   /\ apply_writes (snd r) old = repeat (Some v) len
+       end) /\
+    (len <> 0%nat -> len <> hint -> hint <> 1%nat -> r = (WErr, []) /\ apply_writes (snd r) old = old).
+Proof. exact (@write_trust_iter_any). Qed.
+
+(* "reports a length mismatch without partial undefined state", whatever the iterator announces *)
+Theorem C19_write_trust_iter_err_untouched :
+  forall (A : Type) (old : list (option A)) (it : titer A),
+    fst (write_trust_iter (length old) it) = WErr ->
+    snd (write_trust_iter (length old) it) = [] /\
+    apply_writes (snd (write_trust_iter (length old) it)) old = old.
+Proof. exact (@write_trust_iter_err_untouched). Qed.
+
+(* (18) generators for EVERY Number dictionary (integer, rational, binary64 ... — no law of the
+        arithmetic is used): linspace = exactly n elements, element k = start + step * k in the
+        dictionary's arithmetic, or the panic of the step computation; range likewise with the count the
+        code computed; the empty-span rule *)
+Theorem C19_linspace_any_number_type :
+  forall (A : Type) (N : num_ops A) (trusted : bool) (start : option A) (e : A) (n : nat),
+    match linspace_new N (dflt_zero N start) e n with
+    | Ok s => create_linspace N trusted start e n
+              = Done (map (elem_at N (dflt_zero N start) (ls_step s)) (seq 0 n))
+    | Panic k => create_linspace N trusted start e n = Panicked k
+    end.
+Proof. exact (@create_linspace_any). Qed.
+
+Theorem C19_range_any_number_type :
+  forall (A : Type) (N : num_ops A) (trusted : bool) (start : option A) (e : A) (step : option A),
+    match range_new N (dflt_zero N start) e (dflt_one N step) with
+    | Ok s => create_range N trusted start e step
+              = Done (map (elem_at N (dflt_zero N start) (dflt_one N step)) (seq 0 (ls_len s)))
+    | Panic k => create_range N trusted start e step = Panicked k
+    end.
+Proof. exact (@create_range_any). Qed.
+
+Theorem C19_range_empty_span_any_number_type :
+  forall (A : Type) (N : num_ops A) (trusted : bool) (start : option A) (e : A) (step : option A),
+    (if gtb N (dflt_one N step) (n_zero N)
+     then n_leb N e (dflt_zero N start) else geb N e (dflt_zero N start)) = true ->
+    create_range N trusted start e step = Done [].
+Proof. exact (@create_range_empty_any). Qed.
+
+Theorem C19_progression_shape_any_number_type :
+  forall (A : Type) (N : num_ops A) (a st : A) (n : nat),
+    length (map (elem_at N a st) (seq 0 n)) = n /\
+    forall k, (k < n)%nat -> nth_error (map (elem_at N a st) (seq 0 n)) k = Some (elem_at N a st k).
+Proof. intros A N a st n. split; [apply map_elem_length|intros k; apply map_elem_nth]. Qed.
+
+(* (19) AT BINARY64 (the dictionary Run/RunC19.v executes and the run compares with Rust, bit for bit):
+        linspace never panics and has exactly n elements fl(start + fl(step * fl(k))), step = fl(fl(end - start) / fl(n-1));
+        range is a capacity-overflow panic of the count cast or `count` elements fl(start + fl(step * fl(k))) *)
+Theorem C19_linspace_binary64 :
+  forall (trusted : bool) (start : option float) (e : float) (n : nat),
+    let a := match start with Some v => v | None => PrimFloat.zero end in
+    create_linspace Run.RunC19.f_ops trusted start e n = Done (map (f_elem a (f_lin_step a e n)) (seq 0 n)).
+Proof. exact create_linspace_f64. Qed.
+
+Theorem C19_range_binary64_shape :
+  forall (trusted : bool) (start : option float) (e : float) (step : option float),
+    let a := match start with Some v => v | None => PrimFloat.zero end in
+    let st := match step with Some v => v | None => PrimFloat.one end in
+    create_range Run.RunC19.f_ops trusted start e step = Panicked Overflow
+    \/ exists count : nat,
+         create_range Run.RunC19.f_ops trusted start e step = Done (map (f_elem a st) (seq 0 count)).
+Proof. exact create_range_f64. Qed.
+
+(* ---- non-vacuity of the new implications ---- *)
+Example C19_any_announcement_examples :
+  collect_from_trusted BRaw (TI 2 [7; 8; 9]) = Panicked OtherPanic
+  /\ collect_from_trusted BRaw (TI 4 [7; 8; 9]) = Uninit [Some 7; Some 8; Some 9; None]
+  /\ collect_from_iter (TI 0 [7; 8; 9]) = Done [7; 8; 9]
+  /\ try_collect_from_trusted BRaw (TI 5 [inl 1; inr 50; inl 2]) = @TErr Z Z 50
+  /\ try_collect_from_trusted BRaw (TI 0 [inl 1; inr 50; inl 2]) = @TOk Z Z (Panicked OtherPanic)
+  /\ write_trust_iter 2 (TI 2 [7; 8; 9]) = (WOk, [(0%nat, 7); (1%nat, 8)])
+  /\ write_trust_iter 3 (TI 1 [7; 8; 9]) = (WOk, [(0%nat, 7); (1%nat, 7); (2%nat, 7)])
+  /\ write_trust_iter 3 (TI 1 (@nil Z)) = (WPanic UnwrapNone, [])
+  /\ write_trust_iter 3 (TI 2 [7; 8; 9]) = (WErr, []).
+Proof. vm_compute. repeat split. Qed.
+
+Example C19_binary64_examples :
+  create_linspace Run.RunC19.f_ops true (Some 1%float) 2%float 5
+  = Done [1%float; 1.25%float; 1.5%float; 1.75%float; 2%float]
+  /\ create_range Run.RunC19.f_ops true (Some 0.5%float) (-0.25)%float (Some (-0.25)%float)
+     = Done [0.5%float; 0.25%float; 0%float]
+  /\ create_range Run.RunC19.f_ops true (Some 0%float) infinity (Some 1%float) = Panicked Overflow
+  /\ (if gtb Run.RunC19.f_ops 1%float 0%float then n_leb Run.RunC19.f_ops 0%float 3%float
+      else geb Run.RunC19.f_ops 0%float 3%float) = true.
+Proof. vm_compute. repeat split. Qed.
+
+Print Assumptions C19_collect_plain_any_hint.
+Print Assumptions C19_empty.
+Print Assumptions C19_collect_opt_closed_form.
+Print Assumptions C19_collect_trusted_any_announcement.
+Print Assumptions C19_collect_trusted_done_iff.
+Print Assumptions C19_collect_with_len_any_announcement.
+Print Assumptions C19_try_collect_trusted_any_announcement.
+Print Assumptions C19_try_collect_pulls_stop_at_first_error.
+Print Assumptions C19_write_trust_iter_any_announcement.
+Print Assumptions C19_write_trust_iter_err_untouched.
+Print Assumptions C19_linspace_any_number_type.
+Print Assumptions C19_range_any_number_type.
+Print Assumptions C19_range_empty_span_any_number_type.
+Print Assumptions C19_progression_shape_any_number_type.
+Print Assumptions C19_linspace_binary64.
+Print Assumptions C19_range_binary64_shape.
